@@ -8,6 +8,7 @@ import (
 	"github.com/internetarchive/Zeno/internal/pkg/log"
 	"github.com/internetarchive/Zeno/internal/pkg/reactor"
 	"github.com/internetarchive/Zeno/internal/pkg/stats"
+	"github.com/internetarchive/Zeno/internal/pkg/verifhook"
 	"github.com/internetarchive/Zeno/pkg/models"
 )
 
@@ -76,14 +77,17 @@ func Start(finishChan, produceChan chan *models.Item) error {
 
 func Stop() {
 	if globalLQ != nil {
+		verifhook.At("lq.stop.enter")
 		globalLQ.cancel()
 		globalLQ.wg.Wait()
+		verifhook.At("lq.stop.reset")
 		seedsToReset := reactor.GetStateTable()
 		for _, seed := range seedsToReset {
 			if err := globalLQ.client.ResetURL(context.TODO(), seed); err != nil {
 				logger.Error("error while reseting", "id", seed, "err", err)
 			}
 			logger.Debug("reset seed", "id", seed)
+			verifhook.Obs("lq.stop.reset.one", seed)
 		}
 		once = sync.Once{}
 		logger.Info("stopped")
